@@ -9,7 +9,8 @@
    b = prefix B (move without drawing), nn = prefix N (return to the start).
    No angle commands (A, TA) in this fragment.
    Run(st, cmds) = [st |-> final pen state, segs |-> the drawn segments
-   <<x0, y0, x1, y1, col>> in order]: each is the line LINE would draw.      *)
+   <<x0, y0, x1, y1, col>> in order, err |-> the string was refused part-way]:
+   each segment is the line LINE would draw.                                 *)
 EXTENDS Integers, Sequences
 
 \* scale * n / 4 truncated toward zero (TLA+ \div rounds toward minus infinity)
@@ -30,20 +31,26 @@ Target(st, cmd) ==
              o == Off(st.scale, <<d[1] * cmd.n, d[2] * cmd.n>>)
          IN  <<st.pos[1] + o[1], st.pos[2] + o[2]>>
 
+\* A scale outside 1..255 is refused (Illegal function call): the string stops there, what was drawn before it stays, and the
+\* scale in force does not change (a failed S must not leak into later DRAW statements).  err = TRUE marks that outcome.
+ValidScale(n) == n >= 1 /\ n <= 255
 RECURSIVE Run(_, _)
 Step(st, cmd) ==
     IF IsMove(cmd)
     THEN LET t == Target(st, cmd)
          IN  [st   |-> IF cmd.nn THEN st ELSE [st EXCEPT !.pos = t],
-              segs |-> IF cmd.b THEN <<>> ELSE <<<<st.pos[1], st.pos[2], t[1], t[2], st.col>>>>]
-    ELSE CASE cmd.c = "S" -> [st |-> [st EXCEPT !.scale = cmd.n], segs |-> <<>>]
-           [] cmd.c = "C" -> [st |-> [st EXCEPT !.col = cmd.n], segs |-> <<>>]
+              segs |-> IF cmd.b THEN <<>> ELSE <<<<st.pos[1], st.pos[2], t[1], t[2], st.col>>>>,
+              err  |-> FALSE]
+    ELSE CASE cmd.c = "S" -> IF ValidScale(cmd.n) THEN [st |-> [st EXCEPT !.scale = cmd.n], segs |-> <<>>, err |-> FALSE]
+                             ELSE [st |-> st, segs |-> <<>>, err |-> TRUE]
+           [] cmd.c = "C" -> [st |-> [st EXCEPT !.col = cmd.n], segs |-> <<>>, err |-> FALSE]
            [] cmd.c = "X" -> Run(st, cmd.sub)
 Run(st, cmds) ==
-    IF cmds = <<>> THEN [st |-> st, segs |-> <<>>]
+    IF cmds = <<>> THEN [st |-> st, segs |-> <<>>, err |-> FALSE]
     ELSE LET r1 == Step(st, Head(cmds))
-             r2 == Run(r1.st, Tail(cmds))
-         IN  [st |-> r2.st, segs |-> r1.segs \o r2.segs]
+         IN  IF r1.err THEN r1
+             ELSE LET r2 == Run(r1.st, Tail(cmds))
+                  IN  [st |-> r2.st, segs |-> r1.segs \o r2.segs, err |-> r2.err]
 
 (* ---- the statement of the property, read declaratively, for the self-check in Draw_MC ---- *)
 RECURSIVE Flat(_)
